@@ -41,6 +41,31 @@ func (C19) Gen(r *core.Rng, tier string, emit func(string)) {
 		rs[1].SrcOffset = 1 + l2 + 1
 		emit(mergeLine(rs, 1))
 	}
+	// float64 rounding window: totals of hundreds of megabytes and more where total × overfetch lies a hair
+	// below an integer, so that a budget computed in float64 rounds up across it (total·num ≡ −1 mod den for overfetch = num/den);
+	// the gap is one byte more than the exact budget floor(total × overfetch) and must not be bridged
+	for _, of := range []float32{0.1, 0.05, 0.3, 0.7, 0.2, 1.1, 0.015} {
+		num, den := ratOfFloat32(of) // den is a power of two, num odd
+		inv := new(big.Int).ModInverse(num, den)
+		if inv == nil {
+			continue
+		}
+		// T·num ≡ -1 (mod den): total × overfetch = integer − 1/den
+		t0 := new(big.Int).Mod(new(big.Int).Neg(inv), den)
+		for _, m := range []int64{4, 9, 130} {
+			Tb := new(big.Int).Add(t0, new(big.Int).Mul(big.NewInt(m), den))
+			if !Tb.IsUint64() || Tb.Uint64() < 1<<20 || Tb.Uint64() > 1<<45 {
+				continue
+			}
+			T := Tb.Uint64()
+			exact := new(big.Int).Div(new(big.Int).Mul(Tb, num), den).Uint64()
+			gap := exact + 1
+			rs := []pmtiles.VerifRange{{SrcOffset: 0, DstOffset: 0, Length: 1}, {SrcOffset: 1 + gap, DstOffset: 1, Length: T - 1}}
+			emit(mergeLine(rs, of))
+			rs[1].SrcOffset = 1 + exact // exactly the budget: may be bridged, must stay within the bound
+			emit(mergeLine(rs, of))
+		}
+	}
 	// chains with increasing gaps and a final gap just beyond the remaining budget (under-charging shapes)
 	for _, g := range [][]uint64{{10, 200, 220}, {1, 2, 300}, {5, 50, 500, 5000}} {
 		var rs []pmtiles.VerifRange
@@ -56,6 +81,39 @@ func (C19) Gen(r *core.Rng, tier string, emit func(string)) {
 		for _, of := range []float32{0.375, 0.2625, 0.3, 0.5, 0.7, 1} {
 			emit(mergeLine(rs, of))
 		}
+	}
+	// the ranges extract asks the origin for: entry lists over a few contents stored back to back, with repeated
+	// and back-referenced contents in every order — no source byte may be covered by two ranges
+	nRe := 600
+	if tier == "thorough" {
+		nRe = 30000
+	}
+	for i := 0; i < nRe; i++ {
+		nc := 2 + r.Intn(5)
+		var offs []uint64
+		var lens []uint32
+		var off uint64
+		for k := 0; k < nc; k++ {
+			l := uint32(1 + r.Intn(40))
+			offs = append(offs, off)
+			lens = append(lens, l)
+			off += uint64(l)
+			if r.Chance(1, 5) {
+				off += uint64(1 + r.Intn(30)) // a content the region does not need lies in between
+			}
+		}
+		var es []pmtiles.EntryV3
+		id := uint64(r.Intn(50))
+		for k := 0; k < 2+r.Intn(9); k++ {
+			c := r.Intn(nc)
+			rl := uint32(1)
+			if r.Chance(1, 6) {
+				rl = uint32(2 + r.Intn(4))
+			}
+			es = append(es, pmtiles.EntryV3{TileID: id, Offset: offs[c], Length: lens[c], RunLength: rl})
+			id += uint64(rl) + uint64(r.Intn(3))
+		}
+		emit("reencode " + fmtEntries(es))
 	}
 	// thousands of separate download ranges: a source holding three tile rows of one zoom, of which the
 	// region selects the middle one — in Hilbert order the selected tiles are scattered among the others
@@ -141,7 +199,9 @@ func stripSource(r *core.Rng, z uint8, row uint32) (builtArchive, tileSet, pmtil
 	return ba, ts, ic, bbox
 }
 
-var c19Cfgs = []extractCfg{{1, 0, true}, {4, 0.05, true}, {1, 0.375, true}, {4, 1, true}, {2, 8, true}, {8, 0, true}}
+var c19Cfgs = []extractCfg{{threads: 1, http: true}, {threads: 4, of: 0.05, http: true}, {threads: 1, of: 0.375, http: true}, {threads: 4, of: 1, http: true}, {threads: 2, of: 8, http: true}, {threads: 8, http: true},
+	// the origin cuts one tile-data body short: the extract may fail; if it reports success the transfer bounds hold
+	{threads: 1, http: true, flaky: true}, {threads: 2, of: 0.375, http: true, flaky: true}}
 
 func (C19) RunGo(line string) string {
 	t := strings.Fields(line)
@@ -150,6 +210,8 @@ func (C19) RunGo(line string) string {
 		return runMergecheck(t)
 	case "extract":
 		return C07{}.RunGo(line)
+	case "reencode":
+		return runReencode(t)
 	}
 	return "bad-case"
 }
@@ -165,6 +227,37 @@ func (C19) Oracle(line, goOut string) string {
 		return goOut
 	}
 	switch t[0] {
+	case "reencode":
+		es, _, ok := parseEntries(t[1:])
+		if !ok {
+			return ""
+		}
+		_, ranges, total, _, _ := pmtiles.VerifReencodeEntries(es)
+		// needed bytes = the distinct contents; the ranges must cover each exactly once
+		need := map[uint64]uint64{}
+		for _, e := range es {
+			need[e.Offset] = uint64(e.Length)
+		}
+		var needed, sum uint64
+		for _, l := range need {
+			needed += l
+		}
+		type iv struct{ lo, hi uint64 }
+		var ivs []iv
+		for _, rg := range ranges {
+			sum += rg.Length
+			ivs = append(ivs, iv{rg.SrcOffset, rg.SrcOffset + rg.Length})
+		}
+		sort.Slice(ivs, func(i, j int) bool { return ivs[i].lo < ivs[j].lo })
+		for i := 1; i < len(ivs); i++ {
+			if ivs[i-1].hi > ivs[i].lo {
+				return fmt.Sprintf("source bytes [%d,%d) are covered by two download ranges", ivs[i].lo, ivs[i-1].hi)
+			}
+		}
+		if sum != needed || total != needed {
+			return fmt.Sprintf("the download ranges cover %d bytes (reported %d) for %d needed bytes", sum, total, needed)
+		}
+		return ""
 	case "mergecheck":
 		m := mergeOracle(t, "C19")
 		if strings.HasPrefix(m, "TWICE") {
@@ -182,7 +275,7 @@ func (C19) Oracle(line, goOut string) string {
 		cfgs := c19Cfgs
 		if len(t) > 300 {
 			// many separate ranges: repeat the unmerged multi-thread configurations (schedule-dependent duplicates)
-			cfgs = append(append([]extractCfg{}, c19Cfgs...), extractCfg{8, 0, true}, extractCfg{4, 0, true}, extractCfg{8, 0, true})
+			cfgs = append(append([]extractCfg{}, c19Cfgs...), extractCfg{threads: 8, http: true}, extractCfg{threads: 4, http: true}, extractCfg{threads: 8, http: true})
 		}
 		runs, src, bad := runExtractConfigs(t, cfgs)
 		if bad != "" {
